@@ -33,7 +33,8 @@ template <typename T1, typename T2>
 CompareResult arithmeticCompare(
     const T1& lhs, const T2& rhs,
     enable_if_t<is_integral<T1>::value && is_integral<T2>::value &&
-                sizeof(T1) < sizeof(T2)>* = 0) {
+                sizeof(T1) < sizeof(T2) &&
+                !(is_signed<T1>::value && is_unsigned<T2>::value)>* = 0) {
   return arithmeticCompare<T2>(static_cast<T2>(lhs), rhs);
 }
 
@@ -41,7 +42,30 @@ template <typename T1, typename T2>
 CompareResult arithmeticCompare(
     const T1& lhs, const T2& rhs,
     enable_if_t<is_integral<T1>::value && is_integral<T2>::value &&
-                sizeof(T2) < sizeof(T1)>* = 0) {
+                sizeof(T1) < sizeof(T2) && is_signed<T1>::value &&
+                is_unsigned<T2>::value>* = 0) {
+  if (lhs < 0)  // a negative value is less than any unsigned value
+    return COMPARE_RESULT_LESS;
+  return arithmeticCompare<T2>(static_cast<T2>(lhs), rhs);
+}
+
+template <typename T1, typename T2>
+CompareResult arithmeticCompare(
+    const T1& lhs, const T2& rhs,
+    enable_if_t<is_integral<T1>::value && is_integral<T2>::value &&
+                sizeof(T2) < sizeof(T1) &&
+                !(is_unsigned<T1>::value && is_signed<T2>::value)>* = 0) {
+  return arithmeticCompare<T1>(lhs, static_cast<T1>(rhs));
+}
+
+template <typename T1, typename T2>
+CompareResult arithmeticCompare(
+    const T1& lhs, const T2& rhs,
+    enable_if_t<is_integral<T1>::value && is_integral<T2>::value &&
+                sizeof(T2) < sizeof(T1) && is_unsigned<T1>::value &&
+                is_signed<T2>::value>* = 0) {
+  if (rhs < 0)  // any unsigned value is greater than a negative value
+    return COMPARE_RESULT_GREATER;
   return arithmeticCompare<T1>(lhs, static_cast<T1>(rhs));
 }
 
